@@ -19,12 +19,31 @@ Theorem C05_element_denotation : forall c ab e st lg cl ids,
 Proof. exact element_denotation. Qed.
 Print Assumptions C05_element_denotation.
 
-(* What spec_top is for a stanza: same local name, the content name space if it
-   had none, a non-empty id, a non-empty from when the stream has a from address
-   (server-to-server), the caller's attributes in order minus empty id/from
-   (and minus xmlns if the element is namespaced) plus at most from and id —
-   and the children unchanged up to the xmlns rule. *)
-Theorem C05_completion : forall c id n a kids,
+(* What spec_top is for a stanza, for EVERY stream: whatever the content name
+   space of our output stream (p_out_ns), the default name space of the peer's
+   header (p_in_ns: another content name space, or the WebSocket framing name
+   space) and the framing (p_framing), the stanza keeps its local name, gets the
+   content name space of OUR OUTPUT stream if it had none, a non-empty id, the
+   local address as from when the output stream is jabber:server - and on every
+   other stream nothing but the id is added -, keeps the caller's attributes in
+   order minus empty id/from (and minus xmlns if the element is namespaced), and
+   its children unchanged up to the xmlns rule. *)
+Theorem C05_completion : forall p id n a kids,
+  id <> [] -> is_stanza_name n = true ->
+  exists n1 a1 extra,
+    spec_top (cfg_of p) id (Elem n a kids) = Elem n1 a1 (map strip_tree kids) /\
+    nlocal n1 = nlocal n /\
+    (nspace n = [] -> nspace n1 = p_out_ns p) /\ (nspace n <> [] -> n1 = n) /\
+    has_nonempty s_id a1 = true /\
+    (p_out_ns p = so_ns_server -> p_local p <> [] -> has_nonempty s_from a1 = true) /\
+    a1 = strip_xmlns n1 (filter (fun x => negb (dropped x)) a ++ extra) /\
+    incl extra [from_attr (p_local p); id_attr id] /\
+    (p_out_ns p <> so_ns_server -> incl extra [id_attr id]).
+Proof. exact completion_params. Qed.
+Print Assumptions C05_completion.
+
+(* The same for an arbitrary stanza encoder configuration (name space, from). *)
+Theorem C05_completion_encoder : forall c id n a kids,
   id <> [] -> is_stanza_name n = true ->
   exists n1 a1 extra,
     spec_top c id (Elem n a kids) = Elem n1 a1 (map strip_tree kids) /\
@@ -35,7 +54,7 @@ Theorem C05_completion : forall c id n a kids,
     a1 = strip_xmlns n1 (filter (fun x => negb (dropped x)) a ++ extra) /\
     incl extra [from_attr (c_from c); id_attr id].
 Proof. exact completion_spec. Qed.
-Print Assumptions C05_completion.
+Print Assumptions C05_completion_encoder.
 
 (* Elements that are not stanzas are unchanged up to the xmlns rule. *)
 Theorem C05_non_stanza_unchanged : forall c id n a kids,
@@ -238,3 +257,16 @@ Theorem C05_raw_reader_tables :
   so_raw_pop_before_dec = true /\ so_raw_pop_cmp = str ">=" /\ so_raw_pop_rhs_is_depth = true.
 Proof. exact raw_reader_tables. Qed.
 Print Assumptions C05_raw_reader_tables.
+
+(* How negotiateSession configures the stanza encoder ([cfg_of]): the name space
+   is that of the OUTPUT stream, the from address is the local address exactly
+   when the output stream is jabber:server. Read from session.go on every run:
+   taking the name space from the input stream's header (which differs on a
+   WebSocket session, or when the peer answers with the other content name
+   space) breaks this proof. *)
+Theorem C05_encoder_setup_tables :
+  so_se_ns_field = str "s.out.Info.XMLNS" /\
+  so_se_from_cond = str "s.out.Info.XMLNS == stanza.NSServer" /\
+  so_se_from_value = str "s.LocalAddr()".
+Proof. exact encoder_setup_tables. Qed.
+Print Assumptions C05_encoder_setup_tables.
